@@ -10,6 +10,9 @@ from . import core
 from .core import Undecided, log
 
 KF_PATH = os.path.join(core.VERIF, 'known_findings.json')
+# evidence and replay files go to /verif unless CV_OUT redirects them (used when checks are tried against a scratch copy
+# of the repository with a seeded change: the committed evidence must come from /repo itself)
+OUT = os.environ.get('CV_OUT', core.VERIF)
 
 
 def load_known_findings(prop):
@@ -45,7 +48,7 @@ def tool_versions():
 
 
 def write_replay(prop, job, o, inputs, native, extra=None):
-    d = os.path.join(core.VERIF, 'replays', prop)
+    d = os.path.join(OUT, 'replays', prop)
     os.makedirs(d, exist_ok=True)
     safe = re.sub(r'[^A-Za-z0-9_.-]+', '_', '%s__%s' % (job.name, o['id']))[:150]
     path = os.path.join(d, safe + '.json')
@@ -68,7 +71,7 @@ def run_check(prop, mod, tier, level, only=None):
     seed = int(os.environ.get('VERIF_SEED', '0') or 0)
     scratch = core.Scratch(prop.lower())
     import shutil
-    shutil.rmtree(os.path.join(core.VERIF, 'replays', prop), ignore_errors=True)
+    shutil.rmtree(os.path.join(OUT, 'replays', prop), ignore_errors=True)
     rc = 0
     jobs, unit = [], None
     undecided_reason = None
@@ -212,7 +215,7 @@ def write_evidence(prop, mod, unit, all_jobs, tier, seed, level, wall, violation
     cov.update(info.get('extra', {}))
     ev = {'property_id': prop, 'tier': tier, 'seed': seed, 'level': level, 'coverage': cov,
           'assumptions': info.get('assumptions', []), 'wall_s': round(wall, 1), 'violations': len(violations)}
-    d = os.path.join(core.VERIF, 'evidence')
+    d = os.path.join(OUT, 'evidence')
     os.makedirs(d, exist_ok=True)
     with open(os.path.join(d, prop + '.json'), 'w') as f:
         json.dump(ev, f, indent=1)
